@@ -386,6 +386,18 @@ pub fn real_asserts(prop: &str, case: &Case, real: &Obs, all: &dyn Fn(&str, &str
                     }
                 }
             }
+            // the same grammar with every node cloned at construction and the original dropped (each combinator's
+            // own Clone impl is then on the path of every parse)
+            crate::build::CLONE_NODES.with(|c| c.set(true));
+            let cloned = crate::run::run_hist_as(case, &case.kind, &case.ety, &case.mode, 0);
+            crate::build::CLONE_NODES.with(|c| c.set(false));
+            if let Ok(o) = cloned {
+                let a: Vec<_> = o.past.iter().chain(std::iter::once(&o)).map(key).collect();
+                let b: Vec<_> = real.past.iter().chain(std::iter::once(real)).map(key).collect();
+                if a != b {
+                    return Some(format!("a parser built from clones of its parts behaves differently: {:?} vs {:?}", a, b));
+                }
+            }
             // every parse of the history against a fresh parser on that input alone
             let mut inputs = vec![case.inp.clone()];
             inputs.extend(case.more.iter().cloned());
